@@ -273,15 +273,18 @@ def gen_side(rng, shape):
         ncomp = ncomp + 1
         if rng.random() < 0.5:
             times = [t + 0.5 for t in times] if rng.random() < 0.5 else times + [times[-1] + 1]
+    # integer-typed inputs (Python int, integer-dtype arrays) are legitimate bounds too (F19, F52)
+    as_int = rng.random() < 0.3
+    iv = lambda: float(rng.randint(-9, 9))  # noqa
     if kind == "sc":
-        v = ev()
-        return {"k": "sc", "v": fr(v)}, v
+        v = iv() if as_int else ev()
+        return {"k": "sc", "v": fr(v)}, (int(v) if as_int else v)
     if kind == "vec1":
-        v = ev()
-        return {"k": "vec", "v": [fr(v)]}, np.array([v])
+        v = iv() if as_int else ev()
+        return {"k": "vec", "v": [fr(v)]}, (np.array([int(v)]) if as_int else np.array([v]))
     if kind == "vec":
-        vs = [ev() for _ in range(ncomp)]
-        return {"k": "vec", "v": [fr(v) for v in vs]}, np.array(vs)
+        vs = [iv() if as_int else ev() for _ in range(ncomp)]
+        return {"k": "vec", "v": [fr(v) for v in vs]}, (np.array([int(v) for v in vs]) if as_int else np.array(vs))
     if kind == "ts":
         vs = [ev() for _ in times]
         return {"k": "ts", "t": [fr(t) for t in times], "v": [fr(v) for v in vs]}, Timeseries(np.array(times), np.array(vs))
@@ -430,6 +433,11 @@ def run_corpus(c, prob):
         exp = [oracle_interp(case["mode"], case["ts"], col, NAN, NAN, case["q"][0])[1] for col in case["cols"]]
         if r[0] == "raise" or not np.allclose(np.asarray(r[1]).ravel(), exp):
             c.fail("interpolate(scalar t, 2-D fs)", case, r)
+    # F52 (fixed): float scalar against an integer-dtype vector
+    r = call(OptimizationProblem.merge_bounds, (2.5, 3), (np.array([1, 4, 1]), 4))
+    c.count(("corpus", "F52"))
+    if r[0] == "raise" or list(map(float, r[1][0])) != [2.5, 4.0, 2.5] or float(r[1][1]) != 3.0:
+        c.fail("merge_bounds((2.5, 3), (array([1, 4, 1]), 4))", {"a": [2.5, 3], "b": [[1, 4, 1], 4]}, r)
     # F19 (fixed): int and float scalar bounds mixed
     r = call(OptimizationProblem.merge_bounds, (0, 1), (0.5, 2.0))
     c.count(("corpus", "F19"))
